@@ -10,7 +10,7 @@ for f in os.listdir(src):
     if f.endswith((".diff", ".cpp", ".sh", ".py", ".hpp", ".txt")) and os.path.getsize(os.path.join(src, f)) < 400000:
         shutil.copy(os.path.join(src, f), dst)
 m = json.load(open(os.path.join(src, "meta.json")))
-meta = {"property": sid.split("-")[0], "breaks": m.get("property"), "summary": m.get("summary"),
+meta = {"property": sid[:3], "breaks": m.get("property"), "summary": m.get("summary"),
         "needs_to_manifest": m.get("needs"), "why_tests_pass": m.get("why_tests_pass"),
         "author": "independent sub-agent given only the property text and a scratch worktree",
         "confirmed_by_coordinator": val,
